@@ -28,7 +28,7 @@ const POW_BITS: u8 = 20;
 // ------------------------------------------------------------------ moves
 pub const MENU: [&[&str]; 6] = [
     &["honest-config", "fri-input-size-above-domain (degree test vacuous)", "blow-up-exponent-0 (degree test vacuous)", "one-query"],
-    &["low-degree-random-columns", "first-trace-not-low-degree"],
+    &["low-degree-random-columns", "first-trace-not-low-degree", "composition-table-with-a-third-column (declared as 3 columns)"],
     &["true-values", "solved-composition-pair", "appended-solved-pair", "prepended-junk", "zero-mask+solved-pair", "one-value-short", "solved-pair-after-65536-padding"],
     &["fri-of-deep-function", "fri-of-unrelated-poly+adaptive-leaves", "fri-of-unrelated-poly"],
     &["ground-nonce", "nonce-0"],
@@ -198,7 +198,8 @@ struct Committed {
     t3: Table,
 }
 
-fn commit_tables(s: &Setup, c: u32, junk_first: bool, rng: &mut SplitMix) -> Committed {
+fn commit_tables(s: &Setup, c: u32, kind: usize, rng: &mut SplitMix) -> Committed {
+    let (junk_first, wide) = (kind == 1, kind == 2);
     let n = s.t + c;
     let three = Felt::THREE;
     let points: Vec<Felt> = domain(n).iter().map(|x| three * *x).collect();
@@ -214,7 +215,13 @@ fn commit_tables(s: &Setup, c: u32, junk_first: bool, rng: &mut SplitMix) -> Com
         }
     }
     let rows2 = cols_eval(&s.cols2);
-    let rows3 = cols_eval(&s.comp);
+    let mut rows3 = cols_eval(&s.comp);
+    if wide {
+        // a third composition column the verifier has no use for
+        for r in rows3.iter_mut() {
+            r.push(rng.felt());
+        }
+    }
     let t1 = Table::build(s.variant, rows1.clone(), s.nf);
     let t2 = Table::build(s.variant, rows2.clone(), s.nf);
     let t3 = Table::build(s.variant, rows3.clone(), s.nf);
@@ -267,13 +274,13 @@ pub struct Built {
 
 #[derive(Default)]
 struct Caches {
-    com: HashMap<(u32, bool), std::sync::Arc<Committed>>,
+    com: HashMap<(u32, usize), std::sync::Arc<Committed>>,
     /// (c_real, junk first trace, oods variant) -> everything up to the DEEP function
-    oods: HashMap<(u32, bool, usize), std::sync::Arc<OodsStage>>,
+    oods: HashMap<(u32, usize, usize), std::sync::Arc<OodsStage>>,
     unrelated: HashMap<u32, std::sync::Arc<Vec<Felt>>>,
     /// + (fri of unrelated poly?, fri input size above domain?) -> FRI commit phase
-    fri: HashMap<(u32, bool, usize, bool, bool), std::sync::Arc<FriStage>>,
-    nonce: HashMap<(u32, bool, usize, bool, bool), u64>,
+    fri: HashMap<(u32, usize, usize, bool, bool), std::sync::Arc<FriStage>>,
+    nonce: HashMap<(u32, usize, usize, bool, bool), u64>,
 }
 struct OodsStage {
     oods: Vec<Felt>,
@@ -378,7 +385,7 @@ fn oods_stage(s: &Setup, mv: &Moves, com: &Committed, config: &StarkConfig, c_re
                 let mut cv = Vec::with_capacity(N1 + N2 + 2);
                 cv.extend_from_slice(&com.rows1[i]);
                 cv.extend_from_slice(&com.rows2[i]);
-                cv.extend_from_slice(&com.rows3[i]);
+                cv.extend_from_slice(&com.rows3[i][..2]);
                 L::eval_oods_polynomial(&pi, &cv, &oods, &deep_coeffs, &com.points[i], &z, &g).expect("deep evaluator")
             })
             .collect()
@@ -392,8 +399,11 @@ fn oods_stage(s: &Setup, mv: &Moves, com: &Committed, config: &StarkConfig, c_re
 fn play(s: &Setup, mv: &Moves, cache: &mut Caches, ctx: &Ctx) -> Built {
     let mut rng = ctx.rng(0x0101);
     let mut checks = Vec::new();
-    let (config, c_real, fri_declared) = make_config(s, mv);
-    let junk = mv[1] == 1;
+    let (mut config, c_real, fri_declared) = make_config(s, mv);
+    let junk = mv[1];
+    if mv[1] == 2 {
+        config.composition.n_columns = fu(3);
+    }
     let com = cache.com.entry((c_real, junk)).or_insert_with(|| std::sync::Arc::new(commit_tables(s, c_real, junk, &mut ctx.rng(0x0104 + c_real as u64 * 2 + junk as u64)))).clone();
     let pi: PublicInput = serde_json::from_value(s.pi_value.clone()).unwrap();
     let n = s.t + c_real;
@@ -512,7 +522,8 @@ fn play(s: &Setup, mv: &Moves, cache: &mut Caches, ctx: &Ctx) -> Built {
             let mut cv = Vec::with_capacity(N1 + N2 + 2);
             cv.extend_from_slice(&v1[qi * N1..(qi + 1) * N1]);
             cv.extend_from_slice(&v2[qi * N2..(qi + 1) * N2]);
-            cv.extend_from_slice(&v3[qi * 2..(qi + 1) * 2]);
+            let w3 = if mv[1] == 2 { 3 } else { 2 }; // cells per composition row as opened
+            cv.extend_from_slice(&v3[qi * w3..qi * w3 + 2]);
             let k = match mv[5] {
                 3 => N1 + N2,
                 4 => 0,
@@ -530,7 +541,7 @@ fn play(s: &Setup, mv: &Moves, cache: &mut Caches, ctx: &Ctx) -> Built {
             }
             let c = (committed[q] - f0) * slope.inverse().unwrap();
             match mv[5] {
-                3 => v3[qi * 2] = c,
+                3 => v3[qi * w3] = c,
                 4 => v1[qi * N1] = c,
                 _ => v2[qi * N2] = c,
             }
@@ -640,6 +651,22 @@ fn setup(ctx: &Ctx, c: u32) -> Result<Setup, String> {
         left -= s;
     }
     Ok(Setup { t, c, pi_value, mask, cols1, cols2, comp, variant: Variant::of_build(), nf: 3, steps, last_log: left })
+}
+
+/// Proofs that cannot be obtained by editing an honest proof (their commitments enter the transcript): built by the
+/// game prover for C18, which only asks that verifying them does not panic.
+pub fn prover_built_proofs(ctx: &Ctx) -> Vec<(String, StarkProof)> {
+    let s = match setup(ctx, 1) {
+        Ok(s) => s,
+        Err(_) => return vec![],
+    };
+    let mut cache = Caches::default();
+    let mut out = Vec::new();
+    for mv in [[0usize, 2, 1, 0, 0, 0], [0, 2, 0, 0, 0, 0], [0, 0, 1, 0, 0, 0], [0, 1, 1, 0, 0, 0], [0, 2, 2, 0, 0, 0], [0, 2, 1, 2, 0, 0]] {
+        let b = play(&s, &mv, &mut cache, ctx);
+        out.push((describe(&mv).join(" + "), b.proof));
+    }
+    out
 }
 
 pub fn terminal_states(max_dishonest: usize) -> (Vec<Moves>, u64, u64) {
